@@ -166,13 +166,24 @@ def run_reader(image, reader, blocked, enc=None, cfg=None, limit=None, maxlen=No
     return o
 
 
-def run_tool(image, tool, blocked, enc_family, limit=None, encoding=None) -> Outcome:
-    """tool: 'mci_ipm_to_csv' | 'mideu'.  The tool's `open` is shadowed by SimFS.open for the call."""
+def run_tool(image, tool, blocked, enc_family, limit=None, encoding=None, cfg=None) -> Outcome:
+    """tool: 'mci_ipm_to_csv' | 'mideu'.  The tool's `open` is shadowed by SimFS.open for the call.
+    cfg: a generated bit configuration handed to the tool through its --config-file option (a real
+    temporary JSON file: the tools read their configuration with the builtin open of another module)"""
+    import json
+    import os
+    import tempfile
     m = sut.load()
     o = Outcome()
     fs = SimFS()
     fs.files["in.ipm"] = image
     mod = m[tool]
+    cfg_path = None
+    if cfg is not None:
+        fd, cfg_path = tempfile.mkstemp(prefix="cardsim-cfg-", suffix=".json")
+        with os.fdopen(fd, "w") as g:
+            json.dump({"bit_config": cfg, "output_data_elements": ["MTI"] + [f"DE{b}" for b in sorted(cfg, key=int)],
+                       "mci_parameter_tables": {}}, g)
     bud = steps.Budget(limit or steps.budget_for(len(image)))
     out = io.StringIO()
     mod.open = fs.open
@@ -182,12 +193,12 @@ def run_tool(image, tool, blocked, enc_family, limit=None, encoding=None) -> Out
                 if tool == "mci_ipm_to_csv":
                     rc = mod.cli_run(in_filename="in.ipm", out_filename="out.csv",
                                      in_encoding=encoding or ("cp500" if enc_family == "ebcdic" else "latin_1"),
-                                     no1014blocking=not blocked, config_file=None, out_encoding="utf-8",
+                                     no1014blocking=not blocked, config_file=cfg_path, out_encoding="utf-8",
                                      debug=False)
                 else:
                     rc = mod.cli_run(func=mod.extract, input="in.ipm", csvoutputfile="out.csv",
                                      sourceformat=enc_family, no1014blocking=not blocked,
-                                     loglevel=None, config_file=None)
+                                     loglevel=None, config_file=cfg_path)
         o.kind = "rc"
         o.rc = rc
     except steps.StepBudgetExceeded as ex:
@@ -203,6 +214,11 @@ def run_tool(image, tool, blocked, enc_family, limit=None, encoding=None) -> Out
             del mod.open
         except AttributeError:
             pass
+        if cfg_path:
+            try:
+                os.remove(cfg_path)
+            except OSError:
+                pass
     o.stdout = out.getvalue()
     o.steps = bud.steps
     o.value = fs.files.get("out.csv")
